@@ -76,7 +76,7 @@ var checks = []checkDef{
 		Rule: layerARule, StateMeasure: layerAStates, Assumptions: layerAAssume, RealStub: layerAReal,
 		MustProbe: []string{"lines_delivered", "line_lost_to_own_error", "line_64k", "line_multiline", "write_err", "flush_err", "write_short"}},
 	{ID: "C03", Engine: "brokersim", Level: "exploration", QuickMS: 40000, ThoroughMS: 600000, SelftestRuns: 200,
-		Also: []also{{Engine: "hsrvsim", Workers: 4, Why: "the same property observed through the real net/http server, chunked encoding and TLS (refused attempts end at once and get nothing, lines reach the client at the quiescent point, output displayed byte-exact, peer stream ended)"}},
+		Also: []also{{Engine: "hsrvsim", Workers: 4, Why: "the same property observed through the real net/http server, chunked encoding and TLS (refused attempts end at once and get nothing, lines reach the client at the quiescent point, output displayed byte-exact, peer stream ended)"}, {Engine: "termsim", Workers: 2, Why: "shell output on the operator's terminal itself: each chunk written byte for byte in one piece, nothing held back (incomplete UTF-8 tails, control bytes)"}},
 		Rule: layerARule, StateMeasure: layerAStates, Assumptions: layerAAssume, RealStub: layerAReal,
 		MustProbe: []string{"output_ended_by_itself", "data_with_terminal_error", "read_burst_over_2k", "read_zero_len", "cancel_under_flood_stalled"}},
 	{ID: "C04", Engine: "brokersim", Level: "exploration", QuickMS: 40000, ThoroughMS: 600000, SelftestRuns: 200,
